@@ -469,6 +469,21 @@ Lemma strided_refuted : exists (n : nat) (l : list nat),
   strided 0 n terms <> map (fun x => map (fun k => 10 * x + k) (seq 0 n)) l.
 Proof. exists 2, [1; 2]. vm_compute. split; [reflexivity|discriminate]. Qed.
 
+(* ---- the prior on the augmented space --------------------------------------------------------------------------------- *)
+Lemma fold_add_shift : forall (l : list Z) (a : Z), fold_left Z.add l a = (a + fold_left Z.add l 0)%Z.
+Proof. induction l as [|x l IH]; intros a; cbn [fold_left]; [lia|]. rewrite (IH (a + x)%Z), (IH (0 + x)%Z). lia. Qed.
+(* every augment parameter's factor enters the weight: moving any one of them by d moves the log-prior by d *)
+Lemma full_prior_every_factor : forall (m : Z) (es1 : list Z) (e : Z) (es2 : list Z) (d : Z),
+  full_prior Z.add 0%Z m (es1 ++ (e + d)%Z :: es2) = (full_prior Z.add 0%Z m (es1 ++ e :: es2) + d)%Z.
+Proof.
+  intros. unfold full_prior, augmented_prior. rewrite !fold_left_app. cbn [fold_left].
+  rewrite (fold_add_shift es2 (fold_left Z.add es1 0 + (e + d))%Z), (fold_add_shift es2 (fold_left Z.add es1 0 + e)%Z). lia.
+Qed.
+Lemma last_only_prior_refuted : exists (m e1 e2 d : Z), d <> 0%Z /\
+  last_only_prior Z.add 0%Z m [(e1 + d)%Z; e2] = last_only_prior Z.add 0%Z m [e1; e2] /\
+  full_prior Z.add 0%Z m [(e1 + d)%Z; e2] <> full_prior Z.add 0%Z m [e1; e2].
+Proof. exists (-3)%Z, (-1)%Z, (-2)%Z, 5%Z. vm_compute. repeat split; discriminate. Qed.
+
 (* ---- draws ------------------------------------------------------------------------------------------------------------ *)
 Fixpoint draws_rev (k : nat) (r : list nat) : list (nat * bool) :=
   match k, r with
